@@ -333,10 +333,19 @@ def process_case(rng, tier):
     piped = [(["cnfgen"] + fmt + ["dimacs"] + t, dim) for fmt in ([], ["-of", "opb"], ["-of", "latex"], ["-l"], ["-q"])
              for t in ([], ["-T", "xor", "2"])]
     piped += [(["pbgen", "dimacs"], dim), (["pbgen", "-of", "latex", "dimacs"], dim)]
+    kth = b"3\n1 : 0\n2 : 0\n3 : 1 2 0\n"
+    # the two small tools, as processes: (argv, stdin, expected exit status)
+    small = [(["cnfshuffle"], dim, 0), (["cnfshuffle", "-q", "--seed", "3"], dim, 0), (["cnfshuffle"], b"garbage", 255),
+             (["cnfshuffle"], b"", 255), (["cnfshuffle"], b"p cnf 1 1\n2 0\n", 255), (["cnfshuffle", "-o", "/nonexistent-dir/x"], dim, 255),
+             (["cnfshuffle", "--bogus"], dim, 255), (["cnfshuffle", "-i", "/nonexistent-file"], b"", 255),
+             (["kthlist2pebbling"], kth, 0), (["kthlist2pebbling", "-q", "xor", "2"], kth, 0), (["kthlist2pebbling"], b"x", 255),
+             (["kthlist2pebbling"], b"", 255), (["kthlist2pebbling", "nosuch"], kth, 255), (["kthlist2pebbling", "lift", "0"], kth, 255),
+             (["kthlist2pebbling"], b"2\n1 : 2 0\n2 : 0\n", 255), (["kthlist2pebbling", "-i", "/"], b"", 255)]
 
     def run(c, data=None):
         argv, want = c
-        mod = {"cnfgen": "cnfgen.clitools.cnfgen", "pbgen": "cnfgen.clitools.pbgen"}[argv[0]]
+        mod = {"cnfgen": "cnfgen.clitools.cnfgen", "pbgen": "cnfgen.clitools.pbgen",
+               "cnfshuffle": "cnfgen.clitools.cnfshuffle", "kthlist2pebbling": "cnfgen.clitools.kthlist2pebbling"}[argv[0]]
         env = dict(os.environ, PYTHONPATH=common.REPO, PYTHONWARNINGS="ignore")
         if data is None:
             p = subprocess.run([sys.executable, "-m", mod] + argv[1:], stdin=subprocess.DEVNULL, stdout=subprocess.PIPE,
@@ -350,6 +359,18 @@ def process_case(rng, tier):
         with ThreadPoolExecutor(8) as ex:
             results = list(ex.map(run, cmds))
             piped_results = list(ex.map(lambda a: run((a[0], 0), a[1]), piped))
+            small_results = list(ex.map(lambda a: run((a[0], a[2]), a[1]), small))
+        for argv, want, rc, out, err in small_results:
+            if "Traceback" in err:
+                return {"process": argv, "traceback": err[-400:]}
+            if rc != want:
+                return {"process": argv, "exit_status": rc, "expected": want, "stderr": err[-300:]}
+            if rc == 0:
+                bad = strict_dimacs(out)
+                if bad:
+                    return {"process": argv, "why": bad, "stdout": out[:200]}
+            elif out.strip() or not err.strip():
+                return {"process": argv, "why": "error without a message, or with output on stdout", "stdout": out[:100], "stderr": err[:100]}
         for argv, want, rc, out, err in piped_results:
             if "Traceback" in err:
                 return {"process": argv, "stdin": "piped DIMACS", "traceback": err[-400:]}
